@@ -161,26 +161,28 @@ Definition sbox_lookup (rows : list (list Z)) (v : Z) : Z :=
   let col := Z.land (Z.shiftr v 1) 15 in
   nth (Z.to_nat col) (nth (Z.to_nat row) rows []) 0.
 
-(* boxes in the order S8, S7, ..., S1: S8 takes the six least significant bits of x and
-   produces the four least significant bits of the result *)
-Fixpoint sbox_apply (boxes : list (list (list Z))) (x sh acc : Z) : Z :=
+(* boxes in the order S8, S7, ..., S1: S8 takes the six least significant bits of x.  The
+   4-bit outputs are pushed on acc, so the result lists them in the order S1, ..., S8. *)
+Fixpoint sbox_nibbles (boxes : list (list (list Z))) (x : Z) (acc : list Z) : list Z :=
   match boxes with
   | [] => acc
-  | b :: r =>
-      sbox_apply r (Z.shiftr x 6) (sh + 4)
-        (Z.lor acc (Z.shiftl (sbox_lookup b (Z.land x 63)) sh))
+  | b :: r => sbox_nibbles r (Z.shiftr x 6) (sbox_lookup b (Z.land x 63) :: acc)
   end.
 
+(* the 32-bit word S1(B1) S2(B2) ... S8(B8) for the 48-bit x = B1 B2 ... B8 *)
+Definition sbox_apply (x : Z) : Z :=
+  fold_left (fun a n => Z.lor (Z.shiftl a 4) n) (sbox_nibbles sboxes_rev x []) 0.
+
 Definition des_f (r k : Z) : Z :=
-  gather p_idx (sbox_apply sboxes_rev (Z.lxor (gather e_idx r) k) 0 0).
+  gather p_idx (sbox_apply (Z.lxor (gather e_idx r) k)).
 
 (* ---------- key schedule ---------- *)
 
-Definition mask28 : Z := 268435455.
-Definition mask32 : Z := 4294967295.
+Definition des_mask28 : Z := 268435455.
+Definition des_mask32 : Z := 4294967295.
 
 Definition rotl28 (x n : Z) : Z :=
-  Z.land (Z.lor (Z.shiftl x n) (Z.shiftr x (28 - n))) mask28.
+  Z.land (Z.lor (Z.shiftl x n) (Z.shiftr x (28 - n))) des_mask28.
 
 Fixpoint ks_loop (shifts : list Z) (c d : Z) : list Z :=
   match shifts with
@@ -193,7 +195,7 @@ Fixpoint ks_loop (shifts : list Z) (c d : Z) : list Z :=
 
 Definition des_expand_key (key8 : bytes) : list Z :=
   let cd := gather pc1_idx (be_val_fast key8) in
-  ks_loop key_shifts (Z.shiftr cd 28) (Z.land cd mask28).
+  ks_loop key_shifts (Z.shiftr cd 28) (Z.land cd des_mask28).
 
 (* ---------- block operation ---------- *)
 
@@ -206,7 +208,7 @@ Fixpoint des_rounds (ks : list Z) (l r : Z) : Z * Z :=
 (* the block operation with the subkeys in the order given *)
 Definition des_crypt_ks (ks : list Z) (blk8 : bytes) : bytes :=
   let x := gather ip_idx (be_val_fast blk8) in
-  let '(l, r) := des_rounds ks (Z.shiftr x 32) (Z.land x mask32) in
+  let '(l, r) := des_rounds ks (Z.shiftr x 32) (Z.land x des_mask32) in
   be_bytes_fast 8 (gather fp_idx (Z.lor (Z.shiftl r 32) l)).
 
 Definition des_encrypt_ks (ks : list Z) (blk8 : bytes) : bytes := des_crypt_ks ks blk8.
